@@ -51,7 +51,7 @@ def run(tier, seed, replay):
         if key in seen:
             continue
         seen.add(key)
-        v.violation(key, "real Bus differs from Bus.tla (signature = ramsum, FC..FF inputs, FE/FF outputs, MICR, MISR, DI1, DO1, DO2, read-back): %s" % json.dumps(f), f)
+        v.violation(key, "real Bus differs from Bus.tla (signature = ramsum, FC..FF inputs, FE/FF outputs, MICR, MISR, DI1, DO1, DO2, read-back, DASR, DAISR): %s" % json.dumps(f), f)
     if res["mismatches"] and not res["first"]:
         v.violation("bus:mismatch", "%d mismatches" % res["mismatches"], res)
     # (3) I->S: random read / write / set-input sequences on the real bus, validated by the spec
@@ -76,7 +76,7 @@ def run(tier, seed, replay):
         "exhaustive": True,
         "single_ops_replayed": res["singles"], "address_pairs_replayed": res["pairs"],
         "random_trace_events_validated": nev,
-        "rule": "TLC enumerates 4 pre-states x 256 addresses (invariant over all 256 bytes) and all 65 536 ordered pairs of "
+        "rule": "TLC enumerates 5 pre-states x 256 addresses (invariant over all 256 bytes) and all 65 536 ordered pairs of "
                 "write addresses, checking Bus.tla against the map model; each case is replayed on the real Bus and the "
                 "signature compared; plus random op sequences validated event by event (C10 fields only)",
     }
